@@ -259,6 +259,17 @@ def F36():
     return b.module_b.params["rho"] == 0.7, "rejected value does not stay; a call without eta is accepted"
 
 
+def F38():
+    X = cc(np.array([[0.1, 0.2], [0.8, 0.9], [0.15, 0.25], [0.5, 0.5]]))
+    m = SimpleARTMAP(FuzzyART(0.5, 0.01, 1.0))
+    with quiet():
+        m.partial_fit(X[:2], np.array([0, 1], dtype=np.int8))
+        m.partial_fit(X[2:], np.array([0, 258], dtype=np.int16))
+    lb = [int(t) for t in m.labels_b]
+    mapped = [int(t) for t in m.map_a2b(m.labels_a)]
+    return lb == [0, 1, 0, 258] and mapped == lb, f"targets [0, 1, 0, 258] (int8 batch then int16 batch): labels_b {lb}, map_a2b(labels_a) {mapped}"
+
+
 ALL = {k: v for k, v in list(globals().items()) if k[0] == "F" and k[1:3].isdigit()}
 
 if __name__ == "__main__":
